@@ -390,4 +390,18 @@ Proof.
   unfold s, Model.run, Model.run_from. rewrite fold_left_app. cbn [fold_left].
   destruct He as [-> | ->]; cbn [Model.step]; unfold Model.resend; rewrite Hc; cbn; unfold upd; now rewrite Z.eqb_refl.
 Qed.
+
+(* C01 with an export (and import) policy in force: without policy changes nobody is ever "dirty", so after every
+   history of route events each peer holds exactly the target of the selected path of every destination -- the best
+   path that survives loop prevention AND the export policy, with the exported attributes; nothing stale, nothing missing *)
+Theorem view_exact_under_policy Ei Ee h q qc :
+  Forall (fun e => is_route_event e = true) h -> conf_of q = Some qc ->
+  let s := run Ei Ee h in
+  forall k, r_view s q k = tgt Ee qc k (best_of (r_rib s) k).
+Proof.
+  intros Hh Hq s k.
+  destruct (route_run_static h (init Ei Ee) Hh) as (_ & Fe & _ & Fo).
+  fold (run Ei Ee h) in Fe, Fo. fold s in Fe, Fo. cbn in Fe, Fo.
+  rewrite <- Fe. apply (inv_out s (run_inv Ei Ee h) q qc Hq). now rewrite Fo.
+Qed.
 End ResetProofs.
